@@ -31,11 +31,26 @@ impl Issuer {
     }
 }
 
-fn nq_term(t: &OTerm, bn: &dyn Fn(&str) -> String) -> String {
+pub fn nq_term(t: &OTerm, bn: &dyn Fn(&str) -> String) -> String {
     match t {
         OTerm::Iri(i) => format!("<{}>", i),
         OTerm::Bnode(b) => format!("_:{}", bn(b)),
-        OTerm::Lit(l) => format!("\"{}\"", l), // escape-free simple literals only
+        OTerm::Lit(l) => {
+            // canonical N-Quads (RDFC-1.0 section 5.1 / RDF N-Quads canonical form): ECHAR for BS HT LF FF CR " \,
+            // UCHAR \uXXXX (upper-case hex) for the other characters of U+0000-U+0007, U+000B, U+000E-U+001F and U+007F,
+            // every other character written natively
+            let mut s = String::from("\"");
+            for c in l.chars() {
+                match c {
+                    '\u{8}' => s.push_str("\\b"), '\t' => s.push_str("\\t"), '\n' => s.push_str("\\n"), '\u{c}' => s.push_str("\\f"), '\r' => s.push_str("\\r"),
+                    '"' => s.push_str("\\\""), '\\' => s.push_str("\\\\"),
+                    c if (c as u32) <= 0x1f || c as u32 == 0x7f => s.push_str(&format!("\\u{:04X}", c as u32)),
+                    c => s.push(c),
+                }
+            }
+            s.push('"');
+            s
+        }
     }
 }
 fn nq_line(q: &OQuad, bn: &dyn Fn(&str) -> String) -> String {
